@@ -144,8 +144,13 @@ def run(ctx):
                        'into memory outside the block and outside the frame (or linked into a list/tree by a member), handed to code '
                        'not in sight that may keep it, returned, or tested to be NULL -- the last local holding it is never '
                        'overwritten, re-allocated into, or left behind at a return while the block is still owned by nobody else', floor=5)
+    ctx.rule('R-C18l', 'LIVE-MARKER: where the address of a local is published in a field of a user-visible object (the word through '
+                       'which the frame learns that the object was unregistered), the object is touched after user code ran only where '
+                       'that local was found non-NULL since, and every exported entry point that ends the registration of that kind of '
+                       'object stores NULL through the field on every path (or finds the field NULL)', floor=2)
     ctx.section(radix)
     ctx.section(local_blocks)
+    ctx.section(live_markers)
     ctx.section(array_bounds)
     ctx.section(kernel_writes)
     ctx.section(tls_hooks)
@@ -503,6 +508,204 @@ def dead_frames(ctx):
 
 
 # --------------------------------------------------------------------------
+# R-C18l: liveness markers (frame address published in a user-visible object)
+# --------------------------------------------------------------------------
+
+def _user_code_call(V, x):
+    """an indirect call that may run application code (a handler / hook of a user-visible object, or a function value of
+    unknown origin); poll-method slots and tree comparators are library code"""
+    if x['ev'] != 'call' or 'fnexpr' not in x:
+        return False
+    k = callback_kind(x)
+    if k and k[0] == 'method':
+        return False
+    if k and k[0] == 'hook' and k[1] == 'comparator':
+        return False
+    if k and k[0] in ('param', 'unknown'):
+        try:
+            src = fn_value_sources(V, x['fnexpr'], (x['_b'], x['_i']))
+        except AnalysisBroken:
+            src = None
+        if src and None not in src and all(s_[0] in ('iv_fd_poll_method', 'iv_avl_tree') for s_ in src):
+            return False
+    return True
+
+
+def _marker_retested(prog, g, e, vname, holders):
+    """first use, after user code ran, of a pointer to the object the marker lives in (the variables `holders`) on a path on
+    which the published local `vname` was not found non-NULL since; None when there is none"""
+    V = view_of(prog, g)
+    names = set(holders)
+
+    def uses(x):
+        for key in ('lhs', 'rhs', 'args', 'e', 'fnexpr', 'value'):
+            if key not in x:
+                continue
+            if key == 'args' and x['ev'] == 'enter':
+                continue          # an inlined helper: what it does with the pointer is in sight
+            for y in walk(x[key]):
+                if y.get('k') == 'member' and y.get('arrow') and var_name(y['base']) in names and strip(y['base']).get('k') == 'var':
+                    return True
+                if y.get('k') == 'deref' and strip(y['e']).get('k') == 'var' and var_name(y['e']) in names:
+                    return True
+            if key == 'args' and x['ev'] == 'call':
+                for a in x['args']:
+                    a0 = strip(a)
+                    if isinstance(a0, dict) and a0.get('k') == 'var' and a0['name'] in names:
+                        return True
+        return False
+
+    def tr(x, s):
+        if x is e:
+            return False
+        if s is None:
+            return None
+        if _user_code_call(V, x):
+            return True
+        if x['ev'] == 'store' and strip(x['lhs']).get('k') == 'var' and var_name(x['lhs']) == vname and 'rhs' in x \
+                and x.get('op') == '=' and not (canon(x['rhs']) in ('NULL', '0')):
+            return False          # a fresh value was assigned to the published local by this function
+        return s
+
+    def edge(blk, si, s):
+        if s and blk.term and blk.term.get('cond') is not None and len(blk.succ) == 2:
+            for (op, a, b, _, _) in norm_cond(blk.term['cond'], si == 0):
+                if op == '!=' and a == vname and b == '0':
+                    return False
+        return s
+
+    def jn(a, b):
+        if a is None:
+            return b
+        if b is None:
+            return a
+        return a or b
+    _, ev_in = forward(g, None, tr, jn, edge=edge, start=e['_b'])
+    for x in g.events():
+        if x is not e and ev_in.get((x['_b'], x['_i'])) is True and x['ev'] in ('load', 'store', 'call', 'ret') and uses(x):
+            return x
+    return None
+
+
+def _clears_marker(prog, fu, rec, fld):
+    """(ok, loc, why): on every path to a return of the end-of-registration entry fu, NULL was stored *through* the marker
+    field rec.fld of the object handed in (the word the publisher watches), or the path crossed an edge on which the
+    field reads NULL (nobody is watching)"""
+    try:
+        g = roles.inlined(prog, fu)
+    except AnalysisBroken:
+        g = fu
+    V = view_of(prog, g)
+    obj = {p_['name'] for p_ in fu.params if p_.get('record') == rec and p_.get('ptr')}
+    if not obj:
+        return (False, fu.loc, 'takes no struct %s *' % rec)
+
+    def is_marker(x):
+        x = V.resolve(x)
+        return isinstance(x, dict) and last_member(x) == (rec, fld)
+
+    def through(lhs):
+        l = strip(h18.deref_norm(V, lhs)) if isinstance(lhs, dict) else lhs
+        if not isinstance(l, dict):
+            return False
+        if l.get('k') == 'deref':
+            return is_marker(l['e'])
+        if l.get('k') == 'index':
+            i0 = strip(l['idx'])
+            return is_marker(l['base']) and isinstance(i0, dict) and i0.get('k') == 'int' and i0['v'] == 0
+        return False
+    clr = [x for x in g.events() if x['ev'] == 'store' and through(x['lhs']) and x.get('op') == '=' and 'rhs' in x
+           and canon(x['rhs']) in ('NULL', '0')]
+    tl = {n for n, ds in V.defs.items() if len(ds) == 1 and 'rhs' in ds[0] and ds[0].get('op') == '=' and last_member(ds[0]['rhs']) == (rec, fld)}
+
+    def tr(x, s):
+        return True if any(x is c for c in clr) else s
+
+    def edge(blk, si, s):
+        if blk.term and blk.term.get('cond') is not None and len(blk.succ) == 2:
+            for (op, a, b, l, r) in norm_cond(blk.term['cond'], si == 0):
+                if op == '==' and b == '0' and ((isinstance(l, dict) and last_member(l) == (rec, fld)) or a in tl):
+                    return True
+        return s
+    _, ev_in = forward(g, False, tr, lambda a, b: a and b, edge=edge)
+    pts = [(pb, pi) for (pb, pi, _) in exits_of(g)] + [(g.exit, 0)]
+    bad = [pt for pt in pts if ev_in.get(pt) is False]
+    if not clr:
+        return (False, fu.loc, 'never stores NULL through %s.%s' % (rec, fld))
+    return (not bad, clr[0]['loc'], 'a return is reached without the store through %s.%s and without finding the field NULL' % (rec, fld) if bad else '')
+
+
+def _end_entries(prog, rec):
+    """exported functions that end the registration of an object of kind rec: the partner `..unregister..` of each of
+    the kind's registration entry points (exported API names), taking a pointer to the record"""
+    out = []
+    for K in generic.OBJECT_KINDS:
+        if K['rec'] != rec:
+            continue
+        for r in K['reg']:
+            if 'register' not in r:
+                continue
+            n = r.replace('register', 'unregister')
+            if prog.has_fn(n):
+                t = prog.fn(n)
+                if not t.static and t not in out and any(p_.get('record') == rec and p_.get('ptr') for p_ in t.params):
+                    out.append(t)
+    return out
+
+
+def live_markers(ctx):
+    """Sites: the R-C18f sites whose holder is a field of a user-visible object kind (`obj->f = &v`): while user code
+    runs the application may unregister and release `obj`, and the frame learns of it only through a write to `v` made
+    through `obj->f`.  Two obligations, both necessary for 'only memory of currently registered objects is touched':
+    the publisher touches `obj` after user code ran only where `v` was found non-NULL since; every exported entry point
+    that ends the registration of that kind stores NULL through the field on every path (or finds it NULL)."""
+    prog = ctx.prog
+    kinds = {K['rec'] for K in generic.OBJECT_KINDS}
+    fields = set()
+    for f in sorted(prog.all_funcs(), key=lambda f: f.q):
+        own = {d['name'] for d in f.events() if d['ev'] == 'decl'} | {p_['name'] for p_ in f.params if p_.get('name')}
+        if not own:
+            continue
+        if not any(True for _ in _frame_stores(f)) and not any(
+                e['ev'] == 'call' and e.get('callee') and any(_addr_of_local(a, n) for a in e.get('args', []) for n in own) for e in f.events()):
+            continue
+        try:
+            g = roles.inlined(prog, f)
+        except AnalysisBroken:
+            g = f
+        byloc = {}
+        for (e, v) in _frame_stores(g, chained=True):
+            lm = last_member(e['lhs'])
+            if v['name'] not in own or not lm or lm[0] not in kinds or lm in LIST_LINKS:
+                continue
+            root = lvalue_root(e['lhs'])
+            holders = {v['name']} if (v.get('ptr') and v.get('record') == lm[0]) else set()
+            if root is not None and root.get('k') == 'var' and root.get('vk') in ('local', 'param'):
+                holders.add(root['name'])
+            bad = _marker_retested(prog, g, e, v['name'], holders)
+            k = (lm, e['loc'], v['name'])
+            if bad is not None or k not in byloc:
+                byloc[k] = bad if bad is not None else byloc.get(k, True)
+        for (lm, loc, vn), bad in sorted(byloc.items(), key=lambda kv: str(kv[0])):
+            fields.add(lm)
+            ctx.ob('R-C18l', '%s:retest:%s.%s' % (f.name, lm[0], lm[1]), bad is True, loc=loc,
+                   detail=('the struct %s is touched at %s after user code ran, on a path on which `%s` (published through %s.%s) was '
+                           'not found non-NULL since' % (lm[0], bad.get('loc'), vn, lm[0], lm[1])) if bad is not True else
+                          'after user code ran the struct %s is touched only where `%s` (published through %s.%s) was found non-NULL since'
+                          % (lm[0], vn, lm[0], lm[1]),
+                   path=path_to(g, bad) if bad is not True else None, fn=f.q)
+    for (rec, fld) in sorted(fields):
+        ends = _end_entries(prog, rec)
+        if not ends:
+            raise AnalysisBroken('no exported unregister entry point of kind %s (marker field %s)' % (rec, fld))
+        for fu in ends:
+            ok, loc, why = _clears_marker(prog, fu, rec, fld)
+            ctx.ob('R-C18l', '%s:clears:%s.%s' % (fu.name, rec, fld), ok, loc=loc,
+                   detail='%s stores NULL through %s.%s on every path (or finds the field NULL)%s' % (fu.name, rec, fld, (': ' + why) if why else ''),
+                   fn=fu.q)
+
+
+# --------------------------------------------------------------------------
 # R-C18a.method
 # --------------------------------------------------------------------------
 
@@ -725,9 +928,10 @@ def _must_unless_no_state(g, pred, sv, kill=None):
     return ev_in
 
 
-def _table_callees(V, e, env=None):
+def _table_callees(V, e, env=None, whole=False):
     """names of the functions an indirect call through a const table of function pointers can enter (`T[i](...)`, the
-    index anywhere in its range at the call, or as the path being followed has it), or None"""
+    index anywhere in its range at the call, or as the path being followed has it), or None.  `whole`: when the index
+    cannot be bounded, every entry of the table (an upper bound of what can be entered, for callers that want one)"""
     fx = e.get('fnexpr')
     if not isinstance(fx, dict):
         return None
@@ -735,6 +939,12 @@ def _table_callees(V, e, env=None):
     if isinstance(x, dict) and x.get('k') == 'deref':
         x = x['e']
     vals = V.table_values(x, (e['_b'], e['_i']), env=env)
+    if not vals and whole:
+        x0 = strip(strip_load(x))
+        if isinstance(x0, dict) and x0.get('k') == 'index':
+            init = V._const_global(strip(strip_load(x0['base'])))
+            if isinstance(init, dict) and isinstance(init.get('elems'), list):
+                vals = list(init['elems'])
     if not vals:
         return None
     out = []
@@ -757,8 +967,26 @@ def _partners_run(prog, gT, partners, sv):
     tidx = set()
     for e in gT.events():
         for x in walk(e):
-            if x.get('k') == 'index' and V._const_global(strip_load(x['base'])) is not None and var_name(x['idx']):
-                tidx.add(var_name(x['idx']))
+            if x.get('k') == 'index' and V._const_global(strip_load(x['base'])) is not None:
+                tidx |= {y['name'] for y in walk(x['idx']) if y.get('k') == 'var' and y.get('vk') in ('local', 'param')}
+    # plain counting locals (every definition a literal, a copy of such a local, or a step): a walk over a small table
+    # that is bounded by a count-down / count-up is followed iteration by iteration
+    cnt = None
+    while cnt is None or grew:
+        cnt = cnt if cnt is not None else set(tidx)
+        grew = False
+        for n, ds in V.defs.items():
+            if n in cnt or n in V.escaped or n in V.root_params:
+                continue
+            lv = strip(ds[0]['lhs'])
+            if lv.get('k') != 'var' or '*' in str(lv.get('type', '')):
+                continue
+            if all(d.get('op') in ('++', '--') or (d.get('op') == '=' and 'rhs' in d and isinstance(strip(d['rhs']), dict)
+                   and (strip(d['rhs']).get('k') == 'int' or var_name(d['rhs']) in cnt)) for d in ds) \
+                    and any(d.get('op') in ('++', '--') for d in ds):
+                cnt.add(n)
+                grew = True
+    tidx = cnt
 
     def tr(e, fact, env):
         if e['ev'] != 'call':
@@ -825,11 +1053,12 @@ def module_pairs(ctx, prog):
     # module initialisers: library functions with external linkage that iv_init hands the fresh state block to, called by
     # name or through a const table of function pointers (every entry the index can select)
     inits = []
+    gi = h18.index_walks(prog, gi)
     Vi = view_of(prog, gi)
     for e in gi.events():
         if e['ev'] != 'call' or not e['args'] or var_name(e['args'][0]) not in state:
             continue
-        names = [e['callee']] if 'callee' in e else (_table_callees(Vi, e) or [])
+        names = [e['callee']] if 'callee' in e else (_table_callees(Vi, e, whole=True) or [])
         for nm in names:
             t = prog.resolve(prog.unit_of(fi), nm)
             if t is None or not t.blocks or t.static:
@@ -838,7 +1067,7 @@ def module_pairs(ctx, prog):
                 inits.append((e, nm))
     if not inits:
         raise AnalysisBroken('iv_init: no per-thread module initialiser found')
-    views = [(role, T, Inliner(prog, stop=stop).inline(T)) for (role, T) in teardowns]
+    views = [(role, T, h18.index_walks(prog, Inliner(prog, stop=stop).inline(T))) for (role, T) in teardowns]
     ran = {role: _partners_run(prog, gT, partners, _state_exprs(gT, partners)) for (role, T, gT) in views}
     for (e, nm) in inits:
         if nm not in MODULE_PAIRS:
